@@ -57,11 +57,11 @@ def parse_vwlb_data(fdata: bytes) -> List[Marker]:
         indx = indx + 2
         logging.debug("Frame: %d", frame)
         
-        name_start = mnidx + struct.unpack(">h", fdata[(indx):(indx+2)])[0]
+        name_start = mnidx + struct.unpack(">H", fdata[(indx):(indx+2)])[0]
         indx = indx + 2
         logging.debug("name_start: %d", name_start)
         
-        name_end = mnidx + struct.unpack(">h", fdata[(indx+2):(indx+4)])[0]
+        name_end = mnidx + struct.unpack(">H", fdata[(indx+2):(indx+4)])[0]
         logging.debug("name_end: %d", name_end)
         
         name = fdata[name_start:name_end].decode(get_encoding())
